@@ -139,16 +139,3 @@ Example C13_panic_examples :
   (exists t', free ex_tree 6 = Ok t' /\ Find t' 6 [0x5e] = Panic).
 Proof. split; [vm_compute; reflexivity|]. eexists. split; vm_compute; reflexivity. Qed.
 
-(** ClosestNamedAncestor on the example tree: every object is a named ScopeBlock, so the closest
-    named ancestor of _ADR (slot 4) is IDE0 (slot 3); the root has none *)
-Example C13_closest_example :
-  ClosestNamedAncestor ex_tree (Some 4) = Ok 3 /\ closest_ref ex_tree (arun ghost0 ex_ops) 4 = Some 3 /\
-  ClosestNamedAncestor ex_tree (Some 0) = Ok InvalidIndex /\ ClosestNamedAncestor ex_tree None = Ok InvalidIndex.
-Proof. vm_compute. repeat split; reflexivity. Qed.
-
-Example C13_info_ok_nonvacuous : info_ok ex_tree.
-Proof.
-  intros i o Hg _. unfold get in Hg.
-  assert (Hin : In o (t_pool ex_tree)) by (eapply nth_error_In; eauto).
-  vm_compute in Hin. repeat (destruct Hin as [<-|Hin]; [vm_compute; lia|]). contradiction.
-Qed.
